@@ -63,9 +63,13 @@ def rule_pipe(ctx: Ctx) -> RuleResult:
                     and norm(d.value.elts[0]) == au.params[0]]
             good = feeds and bool(init)
     rets = _rets(au)
-    dedup = any(r.value is not None and ntext(au, r.value, r).startswith("sorted(set(") for r in rets)
+    def _dedup_sorted(txt: str) -> bool:
+        txt = txt.replace("sorted(list(", "sorted((").replace("sorted(tuple(", "sorted((")
+        return txt.startswith(("sorted(set(", "sorted((set(", "sorted(dict.fromkeys(", "sorted((dict.fromkeys(", "sorted(OrderedDict.fromkeys("))
+
+    dedup = any(r.value is not None and _dedup_sorted(ntext(au, r.value, r)) for r in rets)
     if good and dedup:
-        res.ok("apply_unfolders", "starts from [sid], feeds every unfolder's output to the next in list order, returns sorted(set(...))")
+        res.ok("apply_unfolders", "starts from [sid], feeds every unfolder's output to the next in list order, returns the sorted list of unique elements")
     else:
         res.violation([au.qualname, "pipeline"], "apply_unfolders no longer chains the unfolders in list order over [sid] and returns the "
                                                  "de-duplicated sorted result", au.relpath, au.node.lineno)
@@ -85,6 +89,61 @@ def rule_pipe(ctx: Ctx) -> RuleResult:
         res.violation([us.qualname, "pipeline call"], "unfold_search does not run list_search_unfolders (+ extrapolate only under "
                                                       "do_extrapolate) over str(search_sid)", us.relpath, us.node.lineno)
     return res
+
+
+def _kept_by_append(ctx: Ctx, us: FunctionInfo, flow, problems: List[str]) -> bool:
+    """the filtered list is built by appending the Sids that are kept: every append of the loop variable happens under
+    'typed' and 'no unapplied query', and what is returned derives from that list.  Returns False when this form is not
+    present at all (other forms are tried)."""
+    keeps = []
+    for lp in own_nodes(us.node):
+        if not (isinstance(lp, ast.For) and isinstance(lp.target, ast.Name)):
+            continue
+        var = lp.target.id
+        for n in ast.walk(lp):
+            if isinstance(n, ast.Call) and isinstance(n.func, ast.Attribute) and n.func.attr == "append" and len(n.args) == 1 \
+                    and isinstance(n.args[0], ast.Name) and n.args[0].id == var and isinstance(n.func.value, ast.Name):
+                keeps.append((lp, var, n))
+    # only loops over (something derived from) the unfolded list count
+    keeps = [(lp, var, n) for lp, var, n in keeps
+             if any(a.kind == "call" and a.text.split(".")[-1] == "apply_unfolders" for a in flow.depends(lp.iter, flow.node_of(lp).id))]
+    if not keeps:
+        return False
+    lists = set()
+    for lp, var, n in keeps:
+        facts = facts_at(ctx, us, n)
+        lists.add(n.func.value.id)
+        if (var, True) not in facts:
+            problems.append("untyped Sids are not removed")
+        if not ({(f"'?' in {var}.string", False), (f"'?' in str({var})", False)} & facts):
+            problems.append("Sids with an unapplied query are not removed")
+    for r in _rets(us):
+        at = flow.node_of(r)
+        deps = flow.depends(r.value, at.id) if r.value is not None else set()
+        names = {x.id for x in ast.walk(r.value) if isinstance(x, ast.Name)} if r.value is not None else set()
+        tainted = set(lists)
+        changed = True
+        while changed:
+            changed = False
+            for st in own_nodes(us.node):
+                if isinstance(st, ast.Assign) and {x.id for x in ast.walk(st.value) if isinstance(x, ast.Name)} & tainted:
+                    for t in st.targets:
+                        if isinstance(t, ast.Name) and t.id not in tainted:
+                            tainted.add(t.id)
+                            changed = True
+                elif isinstance(st, ast.For) and {x.id for x in ast.walk(st.iter) if isinstance(x, ast.Name)} & tainted:
+                    for x in ast.walk(st.target):
+                        if isinstance(x, ast.Name) and x.id not in tainted:
+                            tainted.add(x.id)
+                            changed = True
+                elif isinstance(st, ast.Call) and isinstance(st.func, ast.Attribute) and st.func.attr in ("append", "setdefault", "add", "extend") \
+                        and isinstance(st.func.value, ast.Name) and any(isinstance(x, ast.Name) and x.id in tainted for a in st.args for x in ast.walk(a)):
+                    if st.func.value.id not in tainted:
+                        tainted.add(st.func.value.id)
+                        changed = True
+        if not (names & tainted):
+            problems.append(f"returns `{norm(r.value)}`, not the filtered list")
+    return True
 
 
 def rule_filter(ctx: Ctx) -> RuleResult:
@@ -122,6 +181,8 @@ def rule_filter(ctx: Ctx) -> RuleResult:
                 problems.append(f"returns `{norm(r.value)}`, not the filtered list")
             elif not cfg.on_all_paths(cfg.entry.id, cfg.node_of(r).id, [cfg.node_of(lp).id]):
                 problems.append("a return is reachable without passing the removal loop")
+    elif _kept_by_append(ctx, us, flow, problems):
+        pass
     elif comp is not None:
         conds_ = " and ".join(norm(c) for c in comp.generators[0].ifs)
         v = norm(comp.generators[0].target)
